@@ -20,6 +20,12 @@ type (
 		ServerAddr() string
 		ClientAddr() string
 		ServerNow() time.Time
+
+		// Called by a command that is about to block. While the command waits,
+		// the connection is watched: if the client goes away, the client state
+		// is closed and the block is aborted. The returned function ends the
+		// watch; the command must call it before it returns.
+		WatchConnection() (stop func())
 	}
 )
 
